@@ -302,9 +302,10 @@ func cmdVerify(args []string) int {
 	os.RemoveAll(*out)
 	exit := 0
 	type pending struct {
-		x     *Exec
-		ur    *UnitResult
-		files []string
+		x         *Exec
+		ur        *UnitResult
+		files     []string
+		batchFile map[int]string
 	}
 	var pend []pending
 	t1 := time.Now()
@@ -398,18 +399,79 @@ func cmdVerify(args []string) int {
 		ur.Inlined = sortedKeys(x.inlined)
 		ur.Probes = x.probes
 		ur.PureCalls = sortedKeys(x.pureCalls)
-		pend = append(pend, pending{x, ur, files})
+		pend = append(pend, pending{x, ur, files, map[int]string{}})
 	}
 	rr.GenS = time.Since(t1).Seconds()
 	t2 := time.Now()
-	for _, pd := range pend {
+	var allRes []solveResult
+	// first the combined safety queries (one per program point instead of one per path)
+	preRes := make([]map[int]solveResult, len(pend))
+	if os.Getenv("GOVC_NOBATCH") == "" && *bounded == 0 {
+		var bfiles []string
+		type bref struct{ unit, batch int }
+		var brefs []bref
+		batches := make([][]vcBatch, len(pend))
+		for k, pd := range pend {
+			preRes[k] = map[int]solveResult{}
+			fnp := p.findFunc(pd.ur.Func)
+			if fnp == nil || fnp.Pkg == nil {
+				continue
+			}
+			dir := filepath.Join(*out, sanitize(shortUnit(pd.ur.Unit)))
+			bs, err := pd.x.writeBatches(dir, pd.files, fnp.Pkg.Pkg)
+			if err != nil {
+				continue
+			}
+			batches[k] = bs
+			for j, b := range bs {
+				bfiles = append(bfiles, b.file)
+				brefs = append(brefs, bref{k, j})
+			}
+		}
+		if len(bfiles) > 0 {
+			bt := *timeout
+			if bt > 10 {
+				bt = 10
+			}
+			bres := solveAll(bfiles, nil, bt, bt, *workers)
+			for i, r := range bres {
+				if r.status != "unsat" {
+					continue
+				}
+				ref := brefs[i]
+				b := batches[ref.unit][ref.batch]
+				for _, m := range b.members {
+					preRes[ref.unit][m] = solveResult{status: "unsat", solver: r.solver + "/batch", seconds: r.seconds / float64(len(b.members))}
+					pend[ref.unit].batchFile[m] = b.file
+					pend[ref.unit].files[m] = ""
+				}
+			}
+		}
+	}
+	// one pool of solver jobs over the obligations of all units
+	var allFiles []string
+	var allObls []*Obligation
+	offs := make([]int, len(pend))
+	for k, pd := range pend {
+		offs[k] = len(allFiles)
+		allFiles = append(allFiles, pd.files...)
+		allObls = append(allObls, pd.x.obls...)
+	}
+	{
 		ct := *coverTimeout
 		if ct <= 0 {
 			ct = *timeout
 		}
-		res := solveAll(pd.files, pd.x.obls, *timeout, ct, *workers)
+		allRes = solveAll(allFiles, allObls, *timeout, ct, *workers)
+	}
+	for k, pd := range pend {
+		res := allRes[offs[k] : offs[k]+len(pd.files)]
 		for i, o := range pd.x.obls {
 			r := res[i]
+			if pr, ok := preRes[k][i]; ok {
+				r = pr
+				pd.files[i] = pd.batchFile[i]
+			}
 			or := &OblResult{Name: o.Name, Kind: o.Kind, Label: o.Label, Pos: o.Pos, Solver: r.solver, Seconds: r.seconds, File: pd.files[i], Cover: o.Cover}
 			if pd.files[i] != "" {
 				if fi, err := os.Stat(pd.files[i]); err == nil {
